@@ -38,7 +38,7 @@ let () =
             | "UTF-8" | "UTF-16" | "UTF-16LE" | "UTF-16BE" | "UTF-32" | "SHIFT_JIS" -> 65535
             | "ISO-8859-1" -> 255
             | _ -> 127 in
-          (match lg_document (lg_this_tree (n_of_int maxc) v11) (ascii ver) (ascii enc) (events rest) with
+          (match lg_document (lg_this_tree (n_of_int maxc) v11) lg_chk_this_tree (ascii ver) (ascii enc) (events rest) with
            | Ok l -> Printf.printf "%s ok %s\n" id (token_of_u16 l)
            | Oob -> Printf.printf "%s oob\n" id
            | Thrown c -> Printf.printf "%s err %d\n" id (int_of_n c))
